@@ -37,6 +37,38 @@ def _once(case, a):
     return None
 
 
+@monitor('c13_count')
+def _count(case, a):
+    """the same families *without* an observer (an attached observer keeps every expression alive, which can hide a
+    defect in the value hand-over): the number of evaluations started — calls of interpret.interpret, counted without
+    holding any reference — must be linear in the depth of the family"""
+    from pbhhg_py import interpret as I
+    from .. import impl
+    kind, k = case.data
+    n = [0]
+    orig = I.interpret
+    def counting(value):
+        n[0] += 1
+        return orig(value)
+    I.interpret = counting
+    try:
+        r = impl.run_main(case.program, case.stdin, case.fs, case.format_io, case.timeout)
+    finally:
+        I.interpret = orig
+    if r['kind'] in ('ok', 'err') and n[0] > 40 * k + 120:
+        return f"{kind} family of depth {k}: {n[0]} evaluations started without an observer (> {40 * k + 120}): a shared expression is evaluated again"
+    return None
+
+
+def cond_doubling(k):
+    """d_k = (λx. (x == x) ? x + x : 0)(d_{k-1}): the shared argument is reached through a Boolean selection (two tail
+    hand-overs through otherwise unreferenced expressions)"""
+    e = "ㄴ"
+    for _ in range(k):
+        e = f"({e}) ((ㄱㅇㄱ ㄱㅇㄱ ㄷㅎㄷ) ㄱ (ㅈㅈㅎㄱ) ㅎㄷ ㅎ) ㅎㄴ"
+    return e
+
+
 def doubling(k):
     """((λx. x + x) ((λx. x + x) (… 1)))  — value 2^k, shares each level's argument twice"""
     e = "ㄴ"
@@ -86,6 +118,14 @@ def cases(rng, tier):
         yield Case(program=doubling(k), mode='events', tag='doubling', monitor='c13_once', data=('doubling', k), timeout=30)
         yield Case(program=fanout(k), mode='events', tag='fanout', monitor='c13_once', data=('fanout', k), timeout=30)
     yield Case(program=identity_share(1), mode='events', tag='identity', monitor='c13_once')
+    # every family again without an observer, counting evaluation starts
+    for k in ([2, 5, 9, 14] if tier == 'quick' else [2, 5, 9, 14, 20, 40, 80]):
+        for name, prog in (('doubling', doubling(k)), ('fanout', fanout(k)), ('cond-doubling', cond_doubling(k))):
+            yield Case(program=prog, tag='count-' + name, monitor='c13_count', data=(name, k), timeout=30, skip_model=(name != 'cond-doubling'))
+        yield Case(program=cond_doubling(k), mode='events', tag='cond-doubling', monitor='c13_once', data=('cond-doubling', k), timeout=30)
+        for kind in ('int', 'list', 'fn', 'io-return', 'str0', 'exc'):
+            yield Case(program=share_kind(SHARE_KINDS[kind], k), tag='count-share-' + kind, monitor='c13_count', data=('share-' + kind, k),
+                       timeout=30, format_io=False, skip_model=True)
     for kind, seed in SHARE_KINDS.items():
         for k in ([1, 2, 4, 9] if tier == 'quick' else [1, 2, 3, 4, 6, 9, 14, 20, 40]):
             yield Case(program=share_kind(seed, k), mode='events', tag='share-' + kind, monitor='c13_once', data=('share-' + kind, k),
@@ -100,7 +140,7 @@ SPEC = {
     'lean': ['C13'],
     'cases': cases,
     'stream': 'C13 observer event stream (DebuggerBase events vs model events)',
-    'rule': 'random typed programs, doubling / fan-out families and share-kind families (a delayed expression of each kind of value — numbers, empty and non-empty strings / bytes / lists / dictionaries / exceptions, Booleans, Nil, functions, every kind of I/O action — used four times per level) of depth k (quick: 9 depths ≤ 50, thorough: 1…200), '
+    'rule': 'families also run without an observer, counting evaluation starts through a wrapper of interpret.interpret (linear bound); random typed programs, doubling / fan-out families and share-kind families (a delayed expression of each kind of value — numbers, empty and non-empty strings / bytes / lists / dictionaries / exceptions, Booleans, Nil, functions, every kind of I/O action — used four times per level) of depth k (quick: 9 depths ≤ 50, thorough: 1…200), '
             'run under a passive recording observer: no delayed expression may have two evaluations with children, the '
             'event count of the families must be linear in k, and the event stream must equal the model machine\'s '
             '(same length, kinds, depths, source spans, failure flags). Non-trivial = tree ≥ 8 nodes or a family',
